@@ -2112,7 +2112,10 @@ def asarray(obj, /, *, dtype=None, format="coo", copy=False, device=None):
     format_dict = {"coo": COO, "dok": DOK, "gcxs": GCXS, "csc": CSC, "csr": CSR}
 
     if isinstance(obj, COO | DOK | GCXS | CSC | CSR):
-        return obj.asformat(format)
+        sparse_obj = obj.asformat(format)
+        if dtype is None or sparse_obj.dtype == dtype:
+            return sparse_obj
+        return sparse_obj.astype(dtype=dtype, copy=copy)
 
     if _is_scipy_sparse_obj(obj):
         sparse_obj = format_dict[format].from_scipy_sparse(obj)
